@@ -142,16 +142,19 @@ def top_fn(src, fn_name, what=None):
 
 
 def closure_match(src, fn_name, marker, what):
-    """the `match <x> { ... }` expression that is the body of the closure literal starting with `marker` inside fn `fn_name` (R5)"""
+    """the `match <x> { ... }` expression that is the body of the closure `|<x>| match <x> {..}` inside fn `fn_name` (R5);
+    the slice carries the closure's parameter name in `.param`"""
     f = top_fn(src, fn_name)
     body = f.verbatim
-    i = body.find(marker)
-    if i < 0:
-        raise AnchorLost('closure %s in %s' % (marker, fn_name))
-    j = body.index('match', i)
+    m = re.search(r'\|(\w+)\| match \1 \{', body)
+    if not m:
+        raise AnchorLost('closure `|x| match x {..}` in %s' % fn_name)
+    j = body.index('match', m.start())
     k = body.index('{', j)
     e = match_brace(body, k)
-    return Slice(src, f.start + j, f.start + e, what)
+    sl = Slice(src, f.start + j, f.start + e, what)
+    sl.param = m.group(1)
+    return sl
 
 
 def between(src, fn_name, start_marker, end_marker, what):
@@ -231,16 +234,42 @@ def inject(sl, ret=None, contract='', entry='', loops=(), closures=(), after=(),
     #   $L<n> = variable of the n-th `for` loop, $M<n> = n-th `let mut` variable
     loopvars = [m.group(1) for m in pos]
     letmuts = [m.group(1) for m in re.finditer(r'\blet mut (\w+)', body)]
+    #   $P<n> = n-th parameter of the function (self not counted)
+    sig = head[head.index('('):] if '(' in head else ''
+    depth = 0
+    cur = ''
+    parts = []
+    for ch in sig[1:]:
+        if ch in '(<[':
+            depth += 1
+        if ch in ')>]':
+            if depth == 0:
+                break
+            depth -= 1
+        if ch == ',' and depth == 0:
+            parts.append(cur)
+            cur = ''
+        else:
+            cur += ch
+    if cur.strip():
+        parts.append(cur)
+    params = []
+    for prt in parts:
+        mm = re.match(r'\s*(?:mut\s+)?(\w+)\s*:', prt)
+        if mm and mm.group(1) != 'self':
+            params.append(mm.group(1))
 
     def subst(txt):
         def f(m):
-            arr = loopvars if m.group(1) == 'L' else letmuts
+            arr = {'L': loopvars, 'M': letmuts, 'P': params}[m.group(1)]
             i = int(m.group(2))
             if i >= len(arr):
                 raise AnchorLost('%s: local %s%d of an annotation does not exist any more' % (sl.what, m.group(1), i))
             return arr[i]
-        return re.sub(r'\$([LM])(\d)', f, txt)
+        return re.sub(r'\$([LMP])(\d)', f, txt)
     entry = subst(entry)
+    contract = subst(contract)
+    closures = [(a, subst(b)) for (a, b) in closures]
     loops = [(o, it, subst(inv)) for (o, it, inv) in loops]
     loop_entry = [(o, subst(t)) for (o, t) in loop_entry]
     loop_end = [(o, subst(t)) for (o, t) in loop_end]
